@@ -912,7 +912,10 @@ func genC19(r *Rand, tier, profile string) *Case {
 		n = r.Range(1, 20)
 	}
 	keys := c19Keys
-	if r.Bool(0.3) {
+	if r.Bool(0.25) {
+		// topic strings that differ only by a trailing (empty) level are different keys
+		keys = []string{"a", "a/", "a/b", "a/b/", "b/"}
+	} else if r.Bool(0.3) {
 		// random 1-4 level keys over a small alphabet, shared prefixes likely
 		keys = nil
 		for i := 0; i < 5; i++ {
@@ -968,5 +971,5 @@ func init() {
 	register(&Check{ID: "C19", Level: "exploration", Build: "maporder", Gen: genC19, Run: runTrie, QuickS: 10, ThoroughS: 200,
 		Rule: "a case = up to 6 (thorough: 20) insert/replace/remove/upsert operations over keys with shared prefixes on the retained store or the subscription index, a dump/load rebuild at a random position, then every key queried; after every operation (or, in half of the cases, only at the end, since queries may themselves touch the store) every key of the universe, the count and the iteration are compared with a Go map; non-trivial when >=2 steps; distinct by hash of (store, history)",
 		Real: []string{"topics.Store (tree, node, protobuf dump)", "subscriptions.Tree (tree, node, protobuf dump)", "wasp/format.Topic tokenizer"}, Stub: []string{"none"},
-		Assume: []string{"keys are non-empty topic strings without wildcards and without empty levels (C01 covers matching and empty levels)", "the only restart-like event these packages offer is the dump/load round trip"}})
+		Assume: []string{"keys are non-empty topic strings without wildcards; empty levels only as a trailing level (C01 covers matching and empty levels elsewhere)", "the only restart-like event these packages offer is the dump/load round trip"}})
 }
